@@ -135,10 +135,18 @@ Definition explain_fit (cs : fitcase) :=
 
 Definition frow := (float * float)%type.
 
+(* a modelled row against the recorded one.  A modelled row with equal ends (constant usage, or all temperatures
+   equal) is widened by fix_identical_bnds in the code (by 10^floor(log10|x|), not modelled): there the recorded row
+   only has to contain the modelled value. *)
+Definition row_match (m r : frow) : bool :=
+  let (l1, h1) := m in let (l2, h2) := r in
+  if f_same l1 h1 then PrimFloat.leb l2 l1 && PrimFloat.leb l1 h2
+  else f_close l1 l2 && f_close h1 h2.
+
 Fixpoint rows_close (a b : list frow) : bool :=
   match a, b with
   | [], [] => true
-  | (l1, h1) :: a', (l2, h2) :: b' => f_close l1 l2 && f_close h1 h2 && rows_close a' b'
+  | m :: a', r :: b' => row_match m r && rows_close a' b'
   | _, _ => false
   end.
 
@@ -169,13 +177,11 @@ Definition check_initial_box (cs : list float * list float * list frow) : bool :
   | _ => false
   end.
 
-(* is the generating building feasible for that box?  (key of the generator's shape = key of the fitted model) *)
+(* is the generating building feasible for the box the optimiser was given?  (recorded rows; that they are the rows
+   Model/Recovery.v constructs is check_final_box).  The key of the generator's shape = key of the fitted model. *)
 Definition check_gen_in_box (cs : building F * boxcase * bool) : bool :=
   let '(p, (key, nmin, T, obs, rec), expected) := cs in
-  match final_box F key nmin T obs rec with
-  | Some b => Bool.eqb (in_box F b (raw_of F p)) expected
-  | None => false
-  end.
+  Bool.eqb (in_box F (map (sort_row F) rec) (raw_of F p)) expected.
 
 (* ---------------------------------------------------------------- distance in parameter space *)
 
